@@ -25,7 +25,7 @@ RULE = ('wallets (HD / single-key / 2-of-3 multisig x legacy / p2sh-segwit / seg
         'or the request was refused')
 TRUSTED_BASE = ['vf/chain_model.py (UTXO registry + consensus-style acceptance via vf/refs/tx.py)', 'vf/wallet_ref.py + vf/refs/bip32.py (change addresses)',
                 'golden/chainparams.json fee_min/fee_max/dust (pinned from tree 074a788)']
-ASSUMPTIONS = ['fee limits are enforced by the library on an estimated size: the real rate may sit 15% outside the limits; explicit fees are chosen '
+ASSUMPTIONS = ['fee limits are enforced by the library on an estimated size: the real rate may sit up to 25% outside the limits; explicit fees are chosen '
                '>=3x inside or outside the limits so the boundary does not decide',
                'single-key wallets legitimately send change to their only address',
                'sweep and input selection skip dust by design', 'bumpfee is exercised without broadcast (the model does not implement RBF replacement)']
@@ -135,7 +135,7 @@ class Judge:
             fmin, fmax, dust = fee_limits(ctx.network)
             rate = int(fee) * 1000.0 / rtx.vsize(p)
             facts['rate'] = rate
-            tol = 0.15 if req.get('fee_mode') != 'explicit' else 0.0
+            tol = 0.25 if req.get('fee_mode') != 'explicit' else 0.0
             lo, hi = fmin * (1 - tol), fmax * (1 + tol)
             if req.get('fee_mode') == 'explicit':
                 lo, hi = fmin / 2.5, fmax * 2.5    # explicit fees were chosen >=3x inside or outside
